@@ -1439,7 +1439,12 @@ _dispatch_lane_drain_non_barriers(dispatch_lane_t dq,
 		if (likely(owned_width)) {
 			owned_width--;
 		} else if (_dispatch_object_is_waiter(dc)) {
-			// sync "readers" don't observe the limit
+			// sync "readers" don't observe the limit, as long as the width
+			// that a pending barrier reserves on top of them still fits
+			if (unlikely(!_dq_state_has_sync_width_room(
+					os_atomic_load2o(dq, dq_state, relaxed), dq->dq_width))) {
+				break;
+			}
 			_dispatch_queue_reserve_sync_width(dq);
 		} else if (!_dispatch_queue_try_acquire_async(dq)) {
 			// no width left
@@ -3648,6 +3653,12 @@ first_iteration:
 			}
 			next_dc = _dispatch_queue_pop_head(dq, dc);
 		} else {
+			if (unlikely(owned == 0 && _dispatch_object_is_waiter(dc) &&
+					!_dq_state_has_sync_width_room(dq_state, dq->dq_width))) {
+				// over-committing one more sync "reader" could make the
+				// width that a pending barrier reserves overflow
+				goto out_with_no_width;
+			}
 			if (owned == DISPATCH_QUEUE_IN_BARRIER) {
 				// we just ran barrier work items, we have to make their
 				// effect visible to other sync work items on other threads
